@@ -297,7 +297,6 @@ func c12Oracle(ex *c12Exec, expectBubble bool) []c12Finding {
 	return out
 }
 
-
 // ---------------------------------------------------------------- scenario generation
 
 var c12Stores = []string{"rmap", "ctl", "nstruct", "rstruct", "nmap"}
@@ -458,7 +457,7 @@ func init() {
 			ThoroughTime: 10 * time.Minute,
 			Exhaustive:   false,
 			Components: map[string]string{
-				"editor, Selection, Browser (node/*)":                         "real",
+				"editor, Selection, Browser (node/*)":                        "real",
 				"stores rmap/nmap/nstruct/rstruct (nodeutil.Reflect, .Node)": "real",
 				"JSON/XML readers as sources, JSONWtr/XMLWtr as targets":     "real",
 				"control store / model-backed source (mnode)":                "harness",
